@@ -30,8 +30,8 @@ def classify(obs):
         return "tls"
     if c in ("refused", "timeout") and clear == "0" and proc == "0":
         return "refused"
-    if c == "ok" and r in ("failed", "noanswer", "sendfailed") and proc == "0" and clear == "1":
-        return "noservice"
+    if c == "ok" and r in ("failed", "noanswer", "sendfailed") and proc == "0":
+        return "noservice"      # whether the plain-text request got onto the wire before the peer hung up does not matter
     return "other"
 
 
@@ -63,13 +63,31 @@ def check_C13(chk, tier, seed):
         if srv == "tls" and addr == "host":
             cases.append(f"TLS {tls} {verify} {srv} {cert} {addr} MARKR{i:04d}q{seed % 1000} relisten")
             meta.append((tls, verify, srv, cert, addr))
+    # a server given an identity the TLS library refuses to serve with (RSA-1024 key): it is still "configured with a TLS
+    # identity" - no plain-text request may be processed or answered, and a TLS client gets no session
+    for tls in (0, 1):
+        for verify in (0, 1):
+            cases.append(f"TLS {tls} {verify} tls weak host MARKW{tls}{verify}q{seed % 1000}")
+            meta.append((tls, verify, "tls", "weak", "host"))
     impl = core.run_sharded([eng.harness, "codec"], eng.prelude, cases, shards=16, timeout=600, env=NET_ENV)
-    mcases = [f"TLSCELL {t} {v} {s} {c} {a} x33383638" for (t, v, s, c, a) in meta]
+    mcases = [f"TLSCELL {t} {v} {s} {'untrusted' if c == 'weak' else c} {a} x33383638" for (t, v, s, c, a) in meta]
     model = eng.ask_model(mcases)
+    if tier == "thorough":
+        # the whole table once more with the library and harness built in the release profile (no debug assertions,
+        # no overflow checks): what the configuration means must not depend on the build profile
+        rel = core.build_harness("release")
+        n0 = len(cases)
+        rcases = [c.replace("MARK", "MREL", 1) for c in cases[: n0 // reps]] if reps > 1 else [c.replace("MARK", "MREL", 1) for c in cases]
+        rmeta = meta[: len(rcases)]
+        impl += core.run_sharded([rel, "codec"], eng.prelude, rcases, shards=16, timeout=900, env=NET_ENV)
+        model += model[: len(rcases)]
+        cases += rcases
+        meta += rmeta
+        chk.extra["release_profile_cells"] = len(rcases)
     for i, (c, (tls, verify, srv, cert, addr), im, mo) in enumerate(zip(cases, meta, impl, model)):
         chk.case(c, True)
         chk.validated += 1
-        want = spec_cell(tls, verify, srv, cert)
+        want = spec_cell(tls, verify, srv, cert) if cert != "weak" else ("refused" if tls else "noservice")
         got = classify(im) if im.startswith("TLS") else "other"
         chk.count("expected:" + want)
         ok = got == want
@@ -82,7 +100,7 @@ def check_C13(chk, tier, seed):
                 "noservice": "a server configured with a TLS identity processed or answered a plain-text request",
             }[want]
             chk.violation(f"{what}: expected {want}, observed {got}", dict(case=c, impl=short(im), expected=want))
-        else:
+        elif cert != "weak":
             mt = mo.split()
             if len(mt) < 2 or mt[1] != got:
                 chk.corr_break("outcome differs from the model's table", dict(case=c, impl=short(im), model=short(mo)))
@@ -120,7 +138,7 @@ def check_C13(chk, tier, seed):
         elif im != mo:
             chk.corr_break("TLS server name differs from the model's domain_of", dict(case=c, impl=im, model=mo))
     chk.exhaustive = True
-    chk.rule = ("twice (verify off before on, and on before off, within each worker process) and once more for TLS servers whose listen() is entered, left and entered again: "
+    chk.rule = ("twice (verify off before on, and on before off, within each worker process) and once more for TLS servers whose listen() is entered, left and entered again, plus a server whose identity the TLS library refuses (RSA-1024): "
                 "the full finite table {client TLS on/off} x {verify on/off} x {server plain/TLS} x {certificate trusted+matching, trusted+wrong name, untrusted} x "
                 "{host name, IP literal} = 48 cells on real sockets with static certificates (tls/), trust injected with SSL_CERT_FILE, a recording TCP relay between "
                 "client and server searching for the per-cell marker in clear text; outcome classified {plain, tls, refused, noservice} and compared with the property's "
@@ -130,7 +148,7 @@ def check_C13(chk, tier, seed):
                        "timeouts: 2.5 s to connect, 2.5 s for the answer, on loopback"]
 
 
-FAULTS = ["malformed", "oversized", "zero-length", "stall-midframe", "stall-setup", "garbage-setup", "reset", "reset-midframe", "handler-panic", "vanish-before-answer"]
+FAULTS = ["announce-leave", "malformed", "oversized", "zero-length", "stall-midframe", "stall-setup", "garbage-setup", "reset", "reset-midframe", "handler-panic", "vanish-before-answer"]
 
 
 def check_C10(chk, tier, seed):
@@ -146,6 +164,10 @@ def check_C10(chk, tier, seed):
         for k in (5, 9):
             cases.append(f"NET {tls} 3 4 {hx(rng.below(1 << 32))} {k} " + " ".join(["stall-setup"] * k))
         cases.append(f"NET {tls} 4 6 {hx(rng.below(1 << 32))} 6 stall-setup garbage-setup stall-midframe stall-setup stall-midframe garbage-setup")
+    # many short-lived peers one after the other, each announcing the largest legal frame and leaving in the middle of it
+    # (whatever the server sets aside per half-received frame must be given back when the connection goes away)
+    for tls in (0, 1):
+        cases.append(f"NET {tls} 2 3 {hx(rng.below(1 << 32))} 72 " + " ".join(["announce-leave"] * 72))
     n = 12 if tier == "quick" else 400
     for k in range(n):
         r = rng.fork(f"n{k}")
@@ -168,7 +190,7 @@ def check_C10(chk, tier, seed):
             chk.sample(dict(case=c, impl=im, P=ok))
     chk.rule = ("every fault kind (malformed frame, oversized frame, zero length, stall in mid-frame, stall before connection setup incl. a TLS handshake never started, "
                 "garbage at setup, reset, reset in mid-frame, handler panic, a peer that resets the connection while the handler is still preparing its answer so that the write fails) alone with 3 well-behaved raw-socket clients, for plain TCP and TLS listeners, plus random "
-                "combinations of 1-3 faulty peers with 1-4 good clients; 5 and 9 simultaneous peers stuck in connection setup; half of the good clients are open before the faults are injected, half open afterwards; "
+                "combinations of 1-3 faulty peers with 1-4 good clients; 5 and 9 simultaneous peers stuck in connection setup; 72 peers in a row that announce a 1 MiB frame and leave in the middle of it; half of the good clients are open before the faults are injected, half open afterwards; "
                 "multi-threaded runtime, real time; every answer compared octet for octet with the handler's answer to that client's own request (a misrouted answer "
                 "carries another client's Session-Id); deadline 3 s per step")
     chk.assumptions = ["partial, the most runtime-heavy property: tokio::spawn panic isolation, the scheduler, TCP and OpenSSL are assumptions of the Coq model (Model/Listener.v); "
